@@ -46,3 +46,20 @@ Proof. vm_compute. reflexivity. Qed.
 Example singular_float_generic :
   m_inverse NumF false InvPlain 2 (all_true 2) [[1;2];[1;2]]%float = PanicSingular.
 Proof. vm_compute. reflexivity. Qed.
+
+(* ---- two defects of the unchanged library, exhibited by the model (known findings) ---- *)
+Local Open Scope Q_scope.
+(* PositiveDefinite + Submatrix with a selection that is not a leading block: the result is
+   not the inverse of the selected block [[5,3],[3,6]] *)
+Example inverse_pd_submatrix_refuted :
+  let A := qm [[4;2;2];[2;5;3];[2;3;6]]%Z in
+  match m_inverse NumQ true InvPD 3 [false;true;true] A, m_inverse NumQ true InvPlain 3 [false;true;true] A with
+  | Ok X, Ok Y => mget NumQ X 1 1 = 5#16 /\ mget NumQ Y 1 1 = 2#7
+  | _, _ => False end.
+Proof. vm_compute. split; reflexivity. Qed.
+
+(* backSubstitution.Run with a caller-supplied InSitu.A: the argument A is ignored *)
+Example backsub_insitu_a_refuted :
+  backsub_run NumQ 2 (qm [[2;1];[0;4]]%Z) (Some [4;8]) (Some (ident NumQ 2)) (zeros NumQ 2) = [4;8] /\
+  backsub_run NumQ 2 (qm [[2;1];[0;4]]%Z) (Some [4;8]) None (zeros NumQ 2) = [1;2].
+Proof. vm_compute. split; reflexivity. Qed.
